@@ -151,7 +151,9 @@ func autoFieldBytes(k []byte) bool {
 
 var oddValues = []string{"", "v w", "text/html; charset=utf-8", "x=y, z", "\xfc\xe9", " lead", "trail ", "\ttab\t", "a\r\nInjected: 1", "x\ny", "cr\rz", "\x00nul", "bell\x07", "del\x7f", strings.Repeat("L", 300), ":", "a:b"}
 var clValues = []string{"0", "7", "42", "1024", "007", "00"}
-var cookieValues = []string{"a=1", "b=2", "sid=abc123", "a=1; b=2", "k=v; k2=v2; k3=v3"}
+var cookieValues = []string{"a=1", "b=2", "sid=abc123", "a=1; b=2", "k=v; k2=v2; k3=v3",
+	// pairs without '=' (value-only cookies), skipped and rejected pairs, odd spacing
+	"tok", "a=1; tok; b=2", "; ; x", `k="a"b"; tok`, `q="v"`, "a=1;b=2", "  sp=1 ;  tok2  ", "e=", "=x", `r=a\b; z=1`, "tok; tok3", "a=1; ; ", "t1; t2; k=9"}
 var setCookieValues = []string{"a=1", "b=2; Path=/", "sid=abc; HttpOnly; Secure", "a=3; Max-Age=0"}
 var trailerValues = []string{"Foo-Bar", "Expires", "foo-bar, expires", "X-Checksum,A", "Foo-Bar, Content-Length", "", "X"}
 var connValues = []string{"close", "keep-alive", "Upgrade", "Close", "keep-alive, Upgrade", "close"}
@@ -705,11 +707,14 @@ func reorderOnly(mm []mismatch, m *model, observed []field, opKey string) string
 // cookie lookups by name: RequestHeader.Cookie(k) returns the value of the first
 // cookie pair named k, ResponseHeader.PeekCookie(k) the whole first Set-Cookie
 // value whose cookie name is k.
-var cookieProbeKeys = []string{"a", "b", "sid", "zz", "k2"}
+var cookieProbeKeys = []string{"a", "b", "sid", "zz", "k2", "k", "q", "r", "sp", "tok"}
 
 func (m *model) cookieLookup(k string) string {
 	for _, p := range m.cookies {
-		name, val, _ := strings.Cut(p, "=")
+		name, val, keyed := strings.Cut(p, "=")
+		if m.req && !keyed {
+			continue // value-only cookie: no name to find it by
+		}
 		if name == k {
 			if m.req {
 				return val
@@ -853,7 +858,11 @@ func (c *caseState) roundTrip(h hdr, m *model) {
 		skip["Content-Type"] = true // request default Content-Type for a non-empty body
 		c.ev["rt_skipped_request_default_content_type"]++
 	}
-	if mm := c.verify(h2, want, skip); len(mm) > 0 {
+	mm := c.verify(h2, want, skip)
+	if len(mm) == 0 && m.req && len(want.cookies) > 0 {
+		mm = c.verify(h2, want, skip) // once more, now that the cookies of the read-back header are collected
+	}
+	if len(mm) > 0 {
 		x := mm[0]
 		kc := "whole-header"
 		if x.Name != "" {
@@ -880,6 +889,9 @@ func (c *caseState) pickName() string {
 		base = "Accept"
 	default:
 		base = specialNames[c.rnd.Intn(len(specialNames))]
+		if c.req && c.rnd.Intn(5) == 0 {
+			base = "Cookie" // cookie slots are recycled by Set/Del/Set cycles
+		}
 	}
 	sp := spellingTable[base]
 	name := sp[c.rnd.Intn(len(sp))]
@@ -1018,7 +1030,7 @@ func (c *caseState) genWire() (wire string, lines []field, status int, cookieLin
 	return b.String(), lines, status, cookieLines, cookieMid
 }
 
-var collectKinds = []string{"Cookie(a)", "Len()", "Cookies()", "DelCookie(absent)", "SetCookie(zz,9)", "PeekKeys()", "All()-first"}
+var collectKinds = []string{"Cookie(a)", "Len()", "Cookies()", "DelCookie(absent)", "SetCookie(zz,9)", "PeekKeys()", "DelAllCookies()", "All()-first"}
 
 // collect performs one of the RequestHeader calls that move the Cookie field
 // out of the ordinary field list.
@@ -1039,6 +1051,9 @@ func collect(h hdr, m *model, which string) {
 		m.setCookie("zz", "9")
 	case "PeekKeys()":
 		_ = rh.PeekKeys()
+	case "DelAllCookies()":
+		rh.DelAllCookies()
+		m.cookies = nil
 	default:
 		for range rh.All() {
 			break
@@ -1074,6 +1089,8 @@ func runCase(r *mon.Run, i int, ev map[string]int) {
 	aborted := false
 	origin := "" // where the header of this round comes from (payload only): "", "parsed", "reused", "reused-parsed"
 	rt := "none"
+	afterReadSuffix := ""
+	cookieSlotsUsed := false // the object's cookie slots have held cookies before (they are recycled)
 	parsedCookieMid := false // this round started from wire bytes whose Cookie line was not the last ordinary field
 
 	fail := func(key, stage string, mm []mismatch) {
@@ -1125,6 +1142,13 @@ func runCase(r *mon.Run, i int, ev map[string]int) {
 				c.ev["content_length_with_leading_zero"]++
 			}
 		}
+		oddCookie := c.req && ck == "Cookie" && o.Kind != "del" && cookieValueOdd(clean(o.Val))
+		if oddCookie {
+			c.ev["cookie_values_with_keyless_or_rejected_pair"]++
+			if cookieSlotsUsed {
+				c.ev["keyless_or_rejected_pair_into_recycled_cookie_slots"]++
+			}
+		}
 		if parsedCookieMid && o.Kind != "del" && !m.present(ck) {
 			c.ev["new_name_added_after_midheader_cookie_was_collected"]++
 		}
@@ -1135,6 +1159,9 @@ func runCase(r *mon.Run, i int, ev map[string]int) {
 			m.set(o.Key, o.Val, o.Kind == "add")
 		}
 		c.ev["ops_checked"]++
+		if len(m.cookies) > 0 {
+			cookieSlotsUsed = true
+		}
 		mm := c.verify(h, m, nil)
 		if len(mm) == 0 {
 			return true
@@ -1165,6 +1192,9 @@ func runCase(r *mon.Run, i int, ev map[string]int) {
 			case len(o.Val) > 1 && o.Val[0] == '0':
 				key += "/leading-zero"
 			}
+		}
+		if oddCookie {
+			key += "/keyless-or-rejected-cookie-pair"
 		}
 		fail(key, o.String(), mm)
 		return false
@@ -1235,24 +1265,51 @@ func runCase(r *mon.Run, i int, ev map[string]int) {
 				c.prefix = roundTag + c.sticky
 				c.ev["parsed_header_with_cookie_before_other_fields"]++
 			}
-			if c.req && (cookieLines > 1 || c.rnd.Intn(2) == 0) {
+			oddCookieLine, rawCookieLine := false, false
+			for _, f := range lines {
+				if c.req && kindOf(c.req, m.key(f.K)) == kCookie {
+					oddCookieLine = oddCookieLine || cookieValueOdd(f.V)
+					rawCookieLine = rawCookieLine || !cookieValueNormalised(f.V)
+				}
+			}
+			if oddCookieLine {
+				afterReadSuffix = "/keyless-or-rejected-cookie-pair"
+				c.ev["parsed_cookie_line_with_keyless_or_rejected_pair"]++
+			}
+			if len(m.cookies) > 0 {
+				cookieSlotsUsed = true
+			}
+			if c.req && (cookieLines > 1 || rawCookieLine || c.rnd.Intn(2) == 0) {
 				// an explicit cookie-collecting call before anything else looks at the header
 				// (with two Cookie lines Peek("Cookie") is only defined after collection)
 				o := op{Kind: "collect", Sub: collectKinds[c.rnd.Intn(len(collectKinds))]}
-				if cookieLines > 1 && o.Sub == "All()-first" {
-					o.Sub = "Len()" // an iteration that stops at the first field does not reach the cookies
+				if (cookieLines > 1 || rawCookieLine) && o.Sub == "All()-first" {
+					// an iteration that stops at the first field does not reach the cookies; and before
+					// collection Peek("Cookie") is the raw line, which equals the serialised pairs only
+					// for a single line in normal form
+					o.Sub = "Len()"
 				}
 				c.log = append(c.log, o)
 				collect(h, m, o.Sub)
 				c.ev["collect_calls"]++
 			}
-			if mm := c.verify(h, m, nil); len(mm) > 0 {
+			mm := c.verify(h, m, nil)
+			if len(mm) == 0 && c.req && len(m.cookies) > 0 {
+				// the first pass saw Peek("Cookie") before the cookies were collected (by its own
+				// PeekKeys); look again at the collected state
+				mm = c.verify(h, m, nil)
+			}
+			if len(mm) > 0 {
 				x := mm[0]
 				kc := "whole-header"
 				if x.Name != "" {
 					kc = keyClass(c.req, m.key(x.Name))
 				}
-				fail(fmt.Sprintf("after-read-%s-%s", x.Obs, kc), "Read", mm)
+				sfx := ""
+				if kc == "cookie" || x.Obs == "cookie-lookup" {
+					sfx = afterReadSuffix
+				}
+				fail(fmt.Sprintf("after-read-%s-%s", x.Obs, kc)+sfx, "Read", mm)
 				break
 			}
 			c.ev["parsed_headers_checked"]++
@@ -1395,8 +1452,8 @@ func runCase(r *mon.Run, i int, ev map[string]int) {
 func TestC29(t *testing.T) {
 	r := mon.Start(t, "C29")
 	defer r.Finish()
-	r.Rule("case = 1-3 sequences ('rounds') on one header object (a later round re-uses it after Reset, as a pooled header, or goes straight into Read of a new message without Reset), RequestHeader (even cases) or ResponseHeader (odd), normalisation on/off alternating; a round starts from an empty header or (45%) from a header Read from generated wire bytes (1-8 fields in PRNG order, Cookie/Host/Content-Length at any position, names in any letter case, optional whitespace around values, response status 200/204/304/100/404) with the model initialised from the generated field lines; then 1-12 operations: Set/Add/Del with their Bytes variants, CopyTo, for responses SetStatusCode(204|304|100|200|404), for requests cookie-collecting calls (Cookie, Len, Cookies, DelCookie, SetCookie, PeekKeys, All); names drawn from 4 ordinary names (A, X, Foo-Bar, Accept) and the 9 special names in 4 letter cases; values: distinct counters, odd strings (empty, OWS, CR/LF, NUL, obs-text, 300 bytes), random bytes, Content-Length incl. leading zeros; after every operation Peek/PeekBytes/PeekAll of every name, PeekKeys, All and cookie lookups by name (Cookie(k) / PeekCookie(k)) are compared with the model; each round ends with Write -> independent wire parse -> Read -> compare. distinct = (type, normalisation, op kinds used, rounds, #special names touched, #multi-valued names, round trip outcome); non-trivial = a Del/Set hit a present name while another name held >= 2 values, or multi-valued and special names coexist, or a parsed header with a multi-valued name")
-	r.Assume("the model (net/textproto canonicalisation, ordered slice) is a faithful reading of the doc comments in header.go: Set replaces the first value, special names single-valued also under Add, Cookie/Set-Cookie accumulate and are observed joined with '; ', Trailer holds a filtered name list, CR and LF in values become spaces; neither SetStatusCode nor Set/Add document any dependence of Content-Length on the status code, so none is modelled; a numeric Content-Length reads back as given (leading zeros kept)")
+	r.Rule("case = 1-3 sequences ('rounds') on one header object (a later round re-uses it after Reset, as a pooled header, or goes straight into Read of a new message without Reset), RequestHeader (even cases) or ResponseHeader (odd), normalisation on/off alternating; a round starts from an empty header or (45%) from a header Read from generated wire bytes (1-8 fields in PRNG order, Cookie/Host/Content-Length at any position, names in any letter case, optional whitespace around values, response status 200/204/304/100/404) with the model initialised from the generated field lines; then 1-12 operations: Set/Add/Del with their Bytes variants, CopyTo, for responses SetStatusCode(204|304|100|200|404), for requests cookie-collecting calls (Cookie, Len, Cookies, DelCookie, SetCookie, PeekKeys, All); names drawn from 4 ordinary names (A, X, Foo-Bar, Accept) and the 9 special names in 4 letter cases; values: distinct counters, odd strings (empty, OWS, CR/LF, NUL, obs-text, 300 bytes), random bytes, Content-Length incl. leading zeros, request Cookie values incl. pairs without '=' (value-only cookies), empty, quoted and rejected pairs and odd spacing; after every operation Peek/PeekBytes/PeekAll of every name, PeekKeys, All and cookie lookups by name (Cookie(k) / PeekCookie(k)) are compared with the model; each round ends with Write -> independent wire parse -> Read -> compare. distinct = (type, normalisation, op kinds used, rounds, #special names touched, #multi-valued names, round trip outcome); non-trivial = a Del/Set hit a present name while another name held >= 2 values, or multi-valued and special names coexist, or a parsed header with a multi-valued name")
+	r.Assume("the model (net/textproto canonicalisation, ordered slice) is a faithful reading of the doc comments in header.go: Set replaces the first value, special names single-valued also under Add, Cookie/Set-Cookie accumulate and are observed joined with '; ' (request Cookie values are read by the reference parser in model.go: pairs split at ';' and the first '=', a pair without '=' is a value-only cookie, surrounding spaces and one pair of double quotes dropped, pairs whose value contains a double quote, a semicolon or a backslash rejected), Trailer holds a filtered name list, CR and LF in values become spaces; neither SetStatusCode nor Set/Add document any dependence of Content-Length on the status code, so none is modelled; a numeric Content-Length reads back as given (leading zeros kept)")
 	r.Assume("names are restricted to RFC 9110 tokens (where fasthttp's normaliser and textproto agree)")
 	r.Assume("generated wire blocks are well-formed: one Host (requests), at most one line of each single-valued special name, a Content-Length in every response (a response without one is turned into 'Connection: close' by the reader: framing), Connection values keep-alive/Upgrade/close, no forbidden trailer names; two Cookie lines only together with an explicit collecting call before the first Peek")
 	r.Assume("not judged (counted as skipped_/rt_skipped_ events): with normalisation off, special names spelled in non-canonical case (docs silent on whether 'content-type' is special); Content-Length values that are not numbers; Transfer-Encoding, Date and Content-Encoding (managed automatically / special only for responses, not in the property's list); PeekAll of an absent special name returning one empty value; round trip of values that are not field-content (CTL bytes); Connection, Transfer-Encoding, Date and the default Content-Type on the round trip; Content-Length is judged on the written bytes but not after reading back")
@@ -1431,6 +1488,9 @@ func TestC29(t *testing.T) {
 		r.Require("content_length_with_leading_zero", n/200)
 		r.Require("status_ops", n/20)
 		r.Require("rounds_reread_without_reset", n/20)
+		r.Require("cookie_values_with_keyless_or_rejected_pair", n/50)
+		r.Require("keyless_or_rejected_pair_into_recycled_cookie_slots", n/100)
+		r.Require("parsed_cookie_line_with_keyless_or_rejected_pair", n/100)
 		r.Require("reread_with_cookies_in_the_second_message", n/100)
 	}
 }
